@@ -203,6 +203,12 @@ func oracleC09(x *Exec, so *StepObs) {
 					continue
 				}
 				if endOf[owner] > e.seq {
+					if e.status == "pending-rollback" {
+						// the creator is a rollback (here: the automatic one of an upgrade --atomic that failed): Rollback
+						// reads the last revision and never looks at its pending status
+						fail("no-create-while-pending", "rollback-ignores-pending", fmt.Sprintf("%s created revision %d (%s) while revision %d of %s was %s and %s had not returned", e.proc, e.rev, e.status, rev, owner, st, owner))
+						return
+					}
 					fail("no-create-while-pending", "none", fmt.Sprintf("%s created revision %d while revision %d of %s was %s and %s had not returned", e.proc, e.rev, rev, owner, st, owner))
 					return
 				}
